@@ -184,7 +184,12 @@ def one(ctx, core, shape, method, n, order, full_output, rule_as=None):
         ex = explore(ctx.repo, body, pinned=NONZERO_STEPS)
     except DataDependentInt as exc:
         cols = sorted({t for t in exc.tags if t[0] == 'x'} | {t for t in exc.tags if '-call' in str(t[0])})
-        if len([t for t in cols if t[0] == 'x']) > 1 or any('-call' in str(t[0]) for t in cols):
+        # which elements of which call the integer was computed from (the run stops in the first call that needs it, so tags of
+        # that call alone are its own data): several elements, or data of two different calls, is the violation
+        elems = {(str(t[0]), t[1]) for t in exc.tags if str(t[0]) == 'x' or str(t[0]).startswith('x-')}
+        calls_seen = {str(t[0]).split('-', 1)[1] if '-' in str(t[0]) else 'checked call' for t in exc.tags
+                      if str(t[0]) == 'x' or '-call' in str(t[0])}
+        if len(elems) > 1 or len(calls_seen) > 1:
             rep.violation(rid('R-COLSEP'), construct, where, {'data_dependent_integer': str(exc)[:200], 'depends_on': [str(t) for t in cols[:4]]},
                           'no index / slice bound computed from several elements steers the computation of all of them', label,
                           key='control data dependent integer')
